@@ -6,6 +6,7 @@ import (
 	"time"
 
 	"github.com/douban/gobeansdb/config"
+	"github.com/douban/gobeansdb/utils"
 )
 
 type GCMgr struct {
@@ -85,12 +86,18 @@ func (mgr *GCMgr) UpdateCollision(bkt *Bucket, ki *KeyInfo, oldPos, newPos Posit
 func (mgr *GCMgr) UpdateHtreePos(bkt *Bucket, ki *KeyInfo, oldPos, newPos Position) {
 	// TODO: should be a api of htree to be atomic
 	meta, _, ok := bkt.htree.get(ki)
+	if utils.VerifOn {
+		utils.Verif("g.repoint.mid", bkt.ID, ki.StringKey, ok, newPos.ChunkID, newPos.Offset)
+	}
 	if !ok {
 		logger.Warnf("old key removed when updating pos bucket %d %s %#v %#v",
 			bkt.ID, ki.StringKey, meta, oldPos)
 		return
 	}
 	bkt.htree.set(ki, meta, newPos)
+	if utils.VerifOn {
+		utils.Verif("g.repoint", bkt.ID, ki.StringKey, newPos.ChunkID, newPos.Offset, meta.Ver)
+	}
 }
 
 func (mgr *GCMgr) BeforeBucket(bkt *Bucket, startChunkID, endChunkID int, merge bool) {
@@ -188,18 +195,27 @@ func (bkt *Bucket) gcCheckRange(startChunkID, endChunkID, noGCDays int) (start, 
 func (mgr *GCMgr) gc(bkt *Bucket, startChunkID, endChunkID int, merge bool) {
 
 	logger.Infof("begin GC bucket %d chunk [%d, %d]", bkt.ID, startChunkID, endChunkID)
+	if utils.VerifOn {
+		utils.Verif("g.enter", bkt.ID, startChunkID, endChunkID, merge)
+	}
 
 	bkt.GCHistory = append(bkt.GCHistory, GCState{})
 	gc := &bkt.GCHistory[len(bkt.GCHistory)-1]
 	// add gc to mgr's stat map
 	mgr.mu.Lock()
 	mgr.stat[bkt] = gc
+	if utils.VerifOn {
+		utils.Verif("g.register", bkt.ID, startChunkID, endChunkID)
+	}
 	mgr.mu.Unlock()
 	gc.Running = true
 	gc.BeginTS = time.Now()
 	defer func() {
 		mgr.mu.Lock()
 		delete(mgr.stat, bkt)
+		if utils.VerifOn {
+			utils.Verif("g.end", bkt.ID, gc.Begin, gc.End, gc.Src, gc.Dst, gc.NumReleased)
+		}
 		mgr.mu.Unlock()
 		gc.Running = false
 		gc.EndTS = time.Now()
@@ -214,6 +230,9 @@ func (mgr *GCMgr) gc(bkt *Bucket, startChunkID, endChunkID int, merge bool) {
 
 	mgr.BeforeBucket(bkt, startChunkID, endChunkID, merge)
 	defer mgr.AfterBucket(bkt)
+	if utils.VerifOn {
+		utils.Verif("g.before", bkt.ID)
+	}
 
 	gc.Dst = startChunkID
 	// try to find the nearest chunk that small than start chunk
@@ -234,6 +253,9 @@ func (mgr *GCMgr) gc(bkt *Bucket, startChunkID, endChunkID int, merge bool) {
 	}
 
 	dstchunk := &bkt.datas.chunks[gc.Dst]
+	if utils.VerifOn {
+		utils.Verif("g.dst", bkt.ID, gc.Dst)
+	}
 	err := dstchunk.beginGCWriting(gc.Begin)
 	if err != nil {
 		gc.Err = err
@@ -258,6 +280,9 @@ func (mgr *GCMgr) gc(bkt *Bucket, startChunkID, endChunkID int, merge bool) {
 		var fileState GCFileState
 		// reader must have a larger buffer
 		logger.Infof("begin GC bucket %d, file %d -> %d", bkt.ID, gc.Src, gc.Dst)
+		if utils.VerifOn {
+			utils.Verif("g.src", bkt.ID, gc.Src, gc.Dst)
+		}
 		bkt.hints.ClearChunk(gc.Src)
 		if r, err = bkt.datas.GetStreamReader(gc.Src); err != nil {
 			gc.Err = err
@@ -314,6 +339,9 @@ func (mgr *GCMgr) gc(bkt *Bucket, startChunkID, endChunkID int, merge bool) {
 			wrec := wrapRecord(rec)
 			recsize := wrec.rec.Payload.RecSize
 			fileState.addRecord(recsize, isNewest, isDeleted, sizeBroken)
+			if utils.VerifOn {
+				utils.Verif("g.newest", bkt.ID, ki.StringKey, oldPos.ChunkID, oldPos.Offset, rec.Payload.Ver, found, isNewest, recsize)
+			}
 			//logger.Infof("key stat: %v %v %v %v", ki.StringKey, isNewest, isCoverdByCollision, isDeleted)
 			if !isNewest {
 				continue
@@ -325,6 +353,9 @@ func (mgr *GCMgr) gc(bkt *Bucket, startChunkID, endChunkID int, merge bool) {
 
 				gc.Dst++
 				newPos.ChunkID = gc.Dst
+				if utils.VerifOn {
+					utils.Verif("g.dstswitch", bkt.ID, gc.Src, gc.Dst)
+				}
 				logger.Infof("continue GC bucket %d, file %d -> %d", bkt.ID, gc.Src, gc.Dst)
 				dstchunk = &bkt.datas.chunks[gc.Dst]
 				err = dstchunk.beginGCWriting(gc.Src)
@@ -347,6 +378,9 @@ func (mgr *GCMgr) gc(bkt *Bucket, startChunkID, endChunkID int, merge bool) {
 			}
 
 			rotated := bkt.hints.set(ki, &meta, newPos, recsize, "gc")
+			if utils.VerifOn {
+				utils.Verif("g.hint", bkt.ID, ki.StringKey, newPos.ChunkID, newPos.Offset, meta.Ver, rotated)
+			}
 			if rotated {
 				bkt.hints.trydump(gc.Dst, false)
 			}
@@ -360,6 +394,9 @@ func (mgr *GCMgr) gc(bkt *Bucket, startChunkID, endChunkID int, merge bool) {
 			bkt.dumpGCHistroy()
 		}
 		logger.Infof("end GC file %#v", fileState)
+		if utils.VerifOn {
+			utils.Verif("g.srcend", bkt.ID, gc.Src, gc.Dst, fileState.NumBefore, fileState.NumReleased)
+		}
 		gc.add(&fileState)
 	}
 	logger.Infof("end GC all %#v", gc)
